@@ -144,16 +144,35 @@ func seq(in, out string) {
 			sum.Skipped++
 			return nil
 		}
+		if sum.NMismatch >= 30 {
+			return nil // enough witnesses: under a changed interpreter every further program may cost a full deadline
+		}
 		src := seqScript(c)
 		exp := seqExpected(c)
 		// once under a cancellable context (vm.ExecuteContext) and once without (vm.Execute): the program cannot block
 		for _, how := range []string{"ExecuteContext", "Execute"} {
 			ctx, cancel := context.WithTimeout(context.Background(), 10*time.Second)
+			var got interface{}
+			var err error
 			if how == "Execute" {
+				// without a cancellable context; a watchdog turns a run that never returns into a wrong outcome instead of a hung check
 				cancel()
-				ctx, cancel = context.Background(), func() {}
+				cancel = func() {}
+				type res struct {
+					v   interface{}
+					err error
+				}
+				done := make(chan res, 1)
+				go func() { v, e := execute(context.Background(), src, nil); done <- res{v, e} }()
+				select {
+				case r := <-done:
+					got, err = r.v, r.err
+				case <-time.After(10 * time.Second):
+					err = fmt.Errorf("did not return within 10 s")
+				}
+			} else {
+				got, err = execute(ctx, src, nil)
 			}
-			got, err := execute(ctx, src, nil)
 			cancel()
 			sum.Runs++
 			if err != nil || !reflect.DeepEqual(norm(got), norm(exp)) {
